@@ -3,7 +3,7 @@
     [run ft ops] = the state after the history [ops], any length, any
     operations; [ft] = the formula table of the case). *)
 From Coq Require Import List String Bool ZArith NArith.
-From MX Require Import Alive.Model Alive.ProofsRes Alive.ProofsStr Alive.ProofsDer Alive.ProofsStep Alive.ProofsTop.
+From MX Require Import Alive.Model Alive.ProofsRes Alive.ProofsStr Alive.ProofsDer Alive.ProofsStep Alive.ProofsTop Alive.ProofsInh.
 Import ListNotations.
 
 (** C13_no_residue: after every history no container (cells / spaces /
@@ -88,3 +88,35 @@ Print Assumptions C13_alive_untouched_cells_partial.
 Theorem C13_invariant : forall ft ops, Inv (run ft ops).
 Proof. exact inv_run. Qed.
 Print Assumptions C13_invariant.
+
+(** C13_reinherit_*: indirect deletion through a re-inheritance pass.  Every space T
+    the pass visits (the edited space s and its sub spaces; for [del p.x], x a
+    space: x and the sub spaces of every space of the deleted tree) loses each
+    ItemSpace r that is, or holds, an ItemSpace of T or a dynamic copy of T
+    ([dyn_roots], taken before the operation): r and everything inside it - its
+    dynamic spaces and cells, nested ItemSpaces - is dead afterwards, whether or
+    not a member of T changed (the library's repair a66156d). *)
+Theorem C13_reinherit_remove_bases : forall st s bs st' T r v,
+  Inv st -> step_remove_bases st s bs = (st', ODone) ->
+  In T (s :: subs_of st s) -> In r (dyn_roots st T) -> inside st' r v -> alive st' v = false.
+Proof. exact remove_bases_discards. Qed.
+Print Assumptions C13_reinherit_remove_bases.
+
+Theorem C13_reinherit_add_bases : forall st s bs st' T r v,
+  Inv st -> alive st s = true -> step_add_bases st s bs = (st', ODone) ->
+  In T (s :: subs_of st s) -> In r (dyn_roots st T) -> inside st' r v -> alive st' v = false.
+Proof. exact add_bases_discards. Qed.
+Print Assumptions C13_reinherit_add_bases.
+
+Theorem C13_reinherit_del_cells : forall st s c st' T r v,
+  Inv st -> alive st s = true -> is_kind st KSpace s = true -> step_del_cells st s c = (st', ODone) ->
+  In T (s :: subs_of st s) -> In r (dyn_roots st T) -> inside st' r v -> alive st' v = false.
+Proof. exact del_cells_discards. Qed.
+Print Assumptions C13_reinherit_del_cells.
+
+Theorem C13_reinherit_del_space : forall st p x st' o T r v,
+  Inv st -> step_del_space st p x = (st', o) ->
+  (T = x \/ exists y, In y (under_set st [x]) /\ is_kind st KSpace y = true /\ In T (subs_of st y)) ->
+  In r (dyn_roots st T) -> inside st' r v -> alive st' v = false.
+Proof. exact del_space_discards. Qed.
+Print Assumptions C13_reinherit_del_space.
